@@ -478,7 +478,12 @@ def check(drv, pid, tier, seed):
         import queuegen
         nv, queue_extra = queuegen.queue_check(drv, violation, pid, cfg, info, seed, tier, viol)
         viol += nv
-    nobl, names = drv.count_obligations(cfg['files'] + list(cfg.get('late_files') or []) + list(cfg.get('gen_proofs') or []) + list(cfg.get('queue_proofs') or []))
+    table_extra = None
+    if cfg.get('table_proofs'):
+        import tablegen
+        nv, table_extra = tablegen.table_check(drv, violation, pid, cfg, info, seed, tier, viol)
+        viol += nv
+    nobl, names = drv.count_obligations(cfg['files'] + list(cfg.get('late_files') or []) + list(cfg.get('gen_proofs') or []) + list(cfg.get('queue_proofs') or []) + list(cfg.get('table_proofs') or []))
     ndis = nobl
     if static is not None and not static['ok']:
         ndis = nobl - max(1, len(static.get('failing_lemmas') or []))
@@ -503,7 +508,7 @@ def check(drv, pid, tier, seed):
                             traces_validated_against_impl=meta['cases'],
                             op_histogram=meta.get('op_histogram'), outcome_histogram=meta.get('outcome_histogram'),
                             type_histogram=meta.get('type_histogram'), length_histogram=meta.get('length_histogram'), extra=meta.get('extra'),
-                            generated_code=gen_extra, generated_queue_methods=queue_extra,
+                            generated_code=gen_extra, generated_queue_methods=queue_extra, regenerated_tables=table_extra,
                             hangs=meta.get('hangs', 0), mismatching_cases=len(mism), known_findings_reported=sorted(known_hit),
                             params=info.get('genparams'), obligations_files=cfg['files'] + list(cfg.get('late_files') or []), coqchk=coqchk,
                             late_files=(dict(ok=static['ok'], files=static['files'], seconds=static['seconds'], failing_lemmas=static.get('failing_lemmas'),
